@@ -59,7 +59,7 @@ theorem run_loc (p : Prog) : ∀ s, (run p s).cfg.loc = s.loc := by
       split <;> split <;> simp [update_loc, ih]
     | force t =>
       simp only [run]
-      split <;> split <;> simp [update_loc, ih]
+      split <;> simp [update_loc, ih]
 
 /-- Without an override, reading returns the process-wide value. -/
 theorem read_of_loc_none (s : Cfg) (h : s.loc = none) : s.read = s.glob := by
@@ -67,5 +67,190 @@ theorem read_of_loc_none (s : Cfg) (h : s.loc = none) : s.read = s.glob := by
 
 theorem cfg_ext (a b : Cfg) (hg : a.glob = b.glob) (hl : a.loc = b.loc) : a = b := by
   cases a; cases b; simp_all
+
+/-! ### scanner: soundness and completeness by mutual structural recursion -/
+
+mutual
+theorem noCodes_sound_aux (bad : Nat → Bool) : ∀ (t : Tree), noCodes bad t = true →
+    ∀ o, Occurs o t → bad o.code = false
+  | .node l occs kids, h, o, ho => by
+    simp only [noCodes, Bool.and_eq_true] at h
+    cases ho with
+    | atRoot hm =>
+      have := (List.all_eq_true.mp h.1) o hm
+      simpa using this
+    | inKid hk hok => exact noCodesL_sound_aux bad kids h.2 _ hk o hok
+theorem noCodesL_sound_aux (bad : Nat → Bool) : ∀ (ts : List Tree), noCodesL bad ts = true →
+    ∀ k, k ∈ ts → ∀ o, Occurs o k → bad o.code = false
+  | [], _, k, hk, _, _ => by simp at hk
+  | t :: ts, h, k, hk, o, ho => by
+    simp only [noCodesL, Bool.and_eq_true] at h
+    have ih1 := noCodes_sound_aux bad t h.1
+    have ih2 := noCodesL_sound_aux bad ts h.2
+    rcases List.mem_cons.mp hk with e | hk'
+    · subst e; exact ih1 o ho
+    · exact ih2 k hk' o ho
+end
+
+mutual
+theorem noCodes_complete_aux (bad : Nat → Bool) : ∀ (t : Tree), noCodes bad t = false →
+    ∃ o, Occurs o t ∧ bad o.code = true
+  | .node l occs kids, h => by
+    simp only [noCodes, Bool.and_eq_false_iff] at h
+    rcases h with h | h
+    · have : ¬ (occs.all (fun o => !bad o.code) = true) := by simp [h]
+      rw [List.all_eq_true] at this
+      have ⟨o, hm, hb⟩ : ∃ o, o ∈ occs ∧ bad o.code = true := by
+        apply Classical.byContradiction
+        intro hn
+        apply this
+        intro x hx
+        cases hbx : bad x.code with
+        | false => rfl
+        | true => exact absurd ⟨x, hx, hbx⟩ hn
+      exact ⟨o, Occurs.atRoot hm, hb⟩
+    · obtain ⟨k, hk, o, ho, hb⟩ := noCodesL_complete_aux bad kids h
+      exact ⟨o, Occurs.inKid hk ho, hb⟩
+theorem noCodesL_complete_aux (bad : Nat → Bool) : ∀ (ts : List Tree), noCodesL bad ts = false →
+    ∃ k, k ∈ ts ∧ ∃ o, Occurs o k ∧ bad o.code = true
+  | [], h => by simp [noCodesL] at h
+  | t :: ts, h => by
+    simp only [noCodesL, Bool.and_eq_false_iff] at h
+    rcases h with h | h
+    · obtain ⟨o, ho, hb⟩ := noCodes_complete_aux bad t h
+      exact ⟨t, List.mem_cons_self, o, ho, hb⟩
+    · obtain ⟨k, hk, r⟩ := noCodesL_complete_aux bad ts h
+      exact ⟨k, List.mem_cons_of_mem _ hk, r⟩
+end
+
+
+mutual
+theorem firstBad_none_aux (bad : Nat → Bool) : ∀ t : Tree, (firstBad bad t = none ↔ noCodes bad t = true)
+  | .node l occs kids => by
+    have ihk := firstBadL_none_aux bad kids
+    simp only [firstBad, noCodes, Bool.and_eq_true]
+    cases hf : findOcc bad occs with
+    | some o =>
+      have : ¬ (occs.all (fun o => !bad o.code) = true) := by
+        rw [← findOcc_none_iff]; simp [hf]
+      simp [this]
+    | none =>
+      have h1 := (findOcc_none_iff bad occs).mp hf
+      cases hk : firstBadL bad kids with
+      | some r => 
+        have : ¬ (noCodesL bad kids = true) := by rw [← ihk]; simp [hk]
+        simp [this]
+      | none => 
+        have := ihk.mp hk
+        simp [h1, this]
+theorem firstBadL_none_aux (bad : Nat → Bool) : ∀ ts : List Tree, (firstBadL bad ts = none ↔ noCodesL bad ts = true)
+  | [] => by simp [firstBadL, noCodesL]
+  | t :: ts => by
+    have iht := firstBad_none_aux bad t
+    have ihts := firstBadL_none_aux bad ts
+    simp only [firstBadL, noCodesL, Bool.and_eq_true]
+    cases hf : firstBad bad t with
+    | some r =>
+      have : ¬ (noCodes bad t = true) := by rw [← iht]; simp [hf]
+      simp [this]
+    | none =>
+      have := iht.mp hf
+      simp [this, ihts]
+end
+
+mutual
+theorem firstBad_some_aux (bad : Nat → Bool) : ∀ (t : Tree) p o, firstBad bad t = some (p, o) →
+    Occurs o t ∧ bad o.code = true
+  | .node l occs kids, p, o, h => by
+    simp only [firstBad] at h
+    cases hf : findOcc bad occs with
+    | some o' =>
+      simp [hf] at h
+      obtain ⟨_, rfl⟩ := h
+      have := findOcc_some bad occs o' hf
+      exact ⟨Occurs.atRoot this.1, this.2⟩
+    | none =>
+      simp [hf] at h
+      cases hk : firstBadL bad kids with
+      | none => simp [hk] at h
+      | some r =>
+        obtain ⟨p', o'⟩ := r
+        simp [hk] at h
+        obtain ⟨_, rfl⟩ := h
+        obtain ⟨k, hkm, hoc, hb⟩ := firstBadL_some_aux bad kids p' o' hk
+        exact ⟨Occurs.inKid hkm hoc, hb⟩
+theorem firstBadL_some_aux (bad : Nat → Bool) : ∀ (ts : List Tree) p o, firstBadL bad ts = some (p, o) →
+    ∃ k, k ∈ ts ∧ Occurs o k ∧ bad o.code = true
+  | [], p, o, h => by simp [firstBadL] at h
+  | t :: ts, p, o, h => by
+    simp only [firstBadL] at h
+    cases hf : firstBad bad t with
+    | some r =>
+      obtain ⟨p', o'⟩ := r
+      simp [hf] at h
+      obtain ⟨rfl, rfl⟩ := h
+      have := firstBad_some_aux bad t p' o' hf
+      exact ⟨t, List.mem_cons_self, this.1, this.2⟩
+    | none =>
+      simp [hf] at h
+      obtain ⟨k, hk, r⟩ := firstBadL_some_aux bad ts p o h
+      exact ⟨k, List.mem_cons_of_mem _ hk, r⟩
+end
+
+
+
+/-! ### value-level semantics of a dtype path -/
+
+/-- What is assumed of numpy's `astype` between float formats: `rep k v` says the value `v` is
+    representable in format `k`; representability is monotone in the precision order (C17's
+    `fitsFF_sound`), and a conversion between two formats that both represent `v` is exact. -/
+structure CastSem (V : Type) where
+  rep : FK → V → Prop
+  cast : FK → FK → V → V
+  rep_mono : ∀ a b v, a.le b = true → rep a v → rep b v
+  exact : ∀ a b v, rep a v → rep b v → cast a b v = v
+
+def runPath {V : Type} (C : CastSem V) : List FK → V → V
+  | a :: b :: rest, v => runPath C (b :: rest) (C.cast a b v)
+  | _, v => v
+
+theorem widening_exact {V : Type} (C : CastSem V) (p : List FK) (h : widening p = true) (v : V)
+    (hv : ∀ a, p.head? = some a → C.rep a v) : runPath C p v = v := by
+  induction p generalizing v with
+  | nil => rfl
+  | cons a rest ih =>
+    cases rest with
+    | nil => rfl
+    | cons b rest2 =>
+      simp only [widening, Bool.and_eq_true] at h
+      have ha : C.rep a v := hv a rfl
+      have hb : C.rep b v := C.rep_mono a b v h.1 ha
+      simp only [runPath]
+      rw [C.exact a b v ha hb]
+      apply ih h.2
+      intro x hx
+      simp at hx
+      subst hx
+      exact hb
+
+
+/-! ### x64 machine: straight-line code leaves the configuration alone -/
+
+theorem run_plain (p : Prog) : ∀ (s : Cfg), p.plain = true → (run p s).cfg = s := by
+  induction p with
+  | skip => intro s _; rfl
+  | raise => intro s _; rfl
+  | set w => intro s h; simp [Prog.plain] at h
+  | seq a b iha ihb =>
+    intro s h
+    simp only [Prog.plain, Bool.and_eq_true] at h
+    simp only [run]
+    split
+    · exact iha s h.1
+    · simp only []
+      rw [iha s h.1]
+      exact ihb s h.2
+  | withCm c body ih => intro s h; simp [Prog.plain] at h
+
 
 end J2O.C09
